@@ -209,7 +209,7 @@ func (f *fprinter) node(n Node, level int) {
 		}
 		f.indent(level, "}")
 	case "call":
-		f.indent(level, "@", n.Comp, "(", CallArgs(n.Comp), ")")
+		f.indent(level, "@", CallName(n.Comp), "(", CallArgs(n.Comp), ")")
 	case "callb":
 		f.indent(level, "@", n.Comp, "() {\n")
 		f.body(level+1, n.Body)
